@@ -1,5 +1,5 @@
 (* C18 through the NFSv4.0 model - the property theorems, and nothing else. *)
-From VF Require Import Nfs40.Model Nfs40.ProofsInv Nfs40.ProofsInv2 Nfs40.ProofsAux Nfs40.Proofs18.
+From VF Require Import Nfs40.Model Nfs40.ProofsInv Nfs40.ProofsInv2 Nfs40.ProofsAux Nfs40.Proofs18 Nfs40.ProofsLease.
 Open Scope N_scope.
 
 (* open_close_balanced: for every history (any interleaving of critical
@@ -90,3 +90,65 @@ Theorem stateid_scope_io : forall g t c k sid openerr ioerr s s' sq other,
   \/ (exists lf, get_lofs sq other c (enter t s) = inl lf /\ mask_subset (io_access k) (lf_sa lf) = true).
 Proof. exact io_stateid_scope. Qed.
 Print Assumptions stateid_scope_io.
+
+(* ---- the lease: a client is expired only once its lease has really lapsed ------
+   Full statement (NOT proved; the monitor rule Spec.lease_step, which Corr.v
+   evaluates on the implementation's trace, holds on every trace of the model):
+
+     Theorem lease_monitor_holds_on_model : forall evs,
+       Spec.lease_trace_ok (Spec.model_trace init evs) = true.
+
+   i.e. on every history a client confirmation leaves the model's tables only
+   (a) replaced by a SETCLIENTID_CONFIRM of the same client, or (b) when the
+   time the monitor last heard of it (start of its last accepted RENEW /
+   SETCLIENTID_CONFIRM / OPEN / owner-sequenced operation / LOCKT /
+   RELEASE_LOCKOWNER / READ, WRITE, SETATTR with a regular state ID, or the
+   return of its parked call) is more than a lease before the clock, and never
+   while one of its calls is parked in the file system.
+   Proved below, for one critical section in an arbitrary state, are the facts
+   of the model this rests on (..._partial); what is missing is the induction
+   over histories linking the monitor's bookkeeping to cf_lastseen / cf_hold
+   (docs/areas/Nfs40.md).  Examples.lease_io_keeps_client and
+   Examples.lease_rule_rejects_early_expiry evaluate the rule on model traces. *)
+
+(* enter() discards a client confirmation only if its lastSeen is more than a
+   lease period before the program's clock *)
+Theorem expiry_only_after_lease_partial : forall t s short,
+  (exists c, In c (st_confs s) /\ cf_short c = short) ->
+  (forall c, In c (st_confs (enter t s)) -> cf_short c <> short) ->
+  exists c, In c (st_confs s) /\ cf_short c = short /\ (cf_lastseen c + lease < st_now (enter t s))%Z.
+Proof. exact ProofsLease.enter_expires_only_lapsed. Qed.
+Print Assumptions expiry_only_after_lease_partial.
+
+(* the program's clock after enter() is at least the clock reading the critical
+   section started with (the monitor's lower bound of the recorded lastSeen) *)
+Theorem enter_clock_monotone : forall t s, (t <= st_now (enter t s))%Z /\ (st_now s <= st_now (enter t s))%Z.
+Proof. exact ProofsLease.enter_clock. Qed.
+Print Assumptions enter_clock_monotone.
+
+(* release() of the last hold stamps lastSeen with the program's clock *)
+Theorem release_records_now : forall short s c, find_conf short s = Some c -> cf_hold c = 1 ->
+  exists c', find_conf short (release short s) = Some c' /\ cf_hold c' = 0 /\ cf_lastseen c' = st_now s.
+Proof. exact ProofsLease.release_records_now. Qed.
+Print Assumptions release_records_now.
+
+(* READ / WRITE / SETATTR with a regular state ID: the first critical section
+   leaves the client held (not idle: enter() cannot expire it) for the call ... *)
+Theorem io_pins_client : forall g t c k sid openerr ioerr s s' sq other,
+  internalize sid = IsReg sq other ->
+  do_io g t c k sid openerr ioerr s = (s', RpParkedIo) ->
+  exists oother client, In (g, PIo oother client (io_access k)) (st_pending s')
+    /\ forall cf0, find_conf client (enter t s) = Some cf0 ->
+         exists cf, find_conf client s' = Some cf /\ cf_hold cf = cf_hold cf0 + 1.
+Proof. exact ProofsLease.io_pins_client. Qed.
+Print Assumptions io_pins_client.
+
+(* ... and the return of the call, when it drops the last hold, renews the
+   lease with a clock reading >= the one the return carried *)
+Theorem io_return_renews_lease : forall g t st s other client cloned cf0,
+  find_by (fun p => fst p =? g) (st_pending s) = Some (g, PIo other client cloned) ->
+  find_conf client (enter t s) = Some cf0 -> cf_hold cf0 = 1 ->
+  exists cf, find_conf client (fst (do_io_ret g t st s)) = Some cf /\ cf_hold cf = 0
+             /\ (t <= cf_lastseen cf)%Z /\ cf_lastseen cf = st_now (fst (do_io_ret g t st s)).
+Proof. exact ProofsLease.io_return_renews_lease. Qed.
+Print Assumptions io_return_renews_lease.
